@@ -112,6 +112,7 @@ class FnTranslator(ExprMixin, CallMixin, StmtMixin, EffectMixin):
         self.counter = 0
         self.prefix = ""
         self.aliased = set()
+        self.fresh_rows = set()         # lists whose entries are distinct fresh lists (`[[] for … in …]`)
         self.effect_self = False
         self.effect_alias = {}
         self.self_aliases = set()
